@@ -152,21 +152,20 @@ func init() {
 			return rv(Val{C: []string{fmt.Sprintf("(errstr %s %s)", recv.C[0], recv.C[1])}})
 		},
 		"ErrWithExpiredItem.Value": func(st *State, fr *Frame, call *ssa.CallCommon, recv Val, args []Val, pos token.Pos) (*Val, bool) {
-			v := Val{C: []string{fmt.Sprintf("(expval_tag %s %s)", recv.C[0], recv.C[1]), fmt.Sprintf("(expval_val %s %s)", recv.C[0], recv.C[1])}}
 			st.assumeExpiryModel()
-			return rv(v)
+			return rv(st.expValOf(nil, recv.C[0], recv.C[1], false))
 		},
 		"ErrWithExpiredItem.ExpiredAt": func(st *State, fr *Frame, call *ssa.CallCommon, recv Val, args []Val, pos token.Pos) (*Val, bool) {
 			st.assumeExpiryModel()
-			return rv(Val{C: []string{fmt.Sprintf("(expat %s %s)", recv.C[0], recv.C[1])}})
+			return rv(Val{C: []string{st.expAtOf(nil, recv.C[0], recv.C[1])}})
 		},
 		"ErrWithExpiredItemOf.Value": func(st *State, fr *Frame, call *ssa.CallCommon, recv Val, args []Val, pos token.Pos) (*Val, bool) {
 			st.assumeExpiryModel()
-			return rv(Val{C: []string{fmt.Sprintf("(expval_val %s %s)", recv.C[0], recv.C[1])}})
+			return rv(st.expValOf(nil, recv.C[0], recv.C[1], true))
 		},
 		"ErrWithExpiredItemOf.ExpiredAt": func(st *State, fr *Frame, call *ssa.CallCommon, recv Val, args []Val, pos token.Pos) (*Val, bool) {
 			st.assumeExpiryModel()
-			return rv(Val{C: []string{fmt.Sprintf("(expat %s %s)", recv.C[0], recv.C[1])}})
+			return rv(Val{C: []string{st.expAtOf(nil, recv.C[0], recv.C[1])}})
 		},
 	}
 	callOutHooks = map[string]func(st *State, fr *Frame, args []Val, res []Val, pos token.Pos){
@@ -443,13 +442,9 @@ func modelErrorsAs(st *State, fr *Frame, fn *ssa.Function, a []Val, pos token.Po
 	p := &Ptr{Kind: PObj, Root: target.C[1], RootT: dst, T: dst}
 	if strings.HasPrefix(name, "ErrWithExpiredItem") {
 		okT := st.asExpiredOK(err)
-		var tv Val
-		if err.C[0] == e.namedTag("errExpired") || err.C[0] == e.expiredOfTag() {
-			tv = Val{T: dst, C: []string{err.C[0], err.C[1]}}
-		} else {
-			tv = Val{T: dst, C: []string{fmt.Sprintf("(asExp_tag %s %s)", err.C[0], err.C[1]), fmt.Sprintf("(asExp_val %s %s)", err.C[0], err.C[1])}}
-			st.assume(implies(okT, not(eq(tv.C[0], "0"))))
-		}
+		tt2, tv2 := st.asTarget(err.C[0], err.C[1])
+		tv := Val{T: dst, C: []string{tt2, tv2}}
+		st.assume(implies(okT, not(eq(tv.C[0], "0"))))
 		old := st.loadPtrQuiet(p)
 		nv := Val{T: dst}
 		for i := range tv.C {
@@ -530,25 +525,75 @@ func (e *Engine) litOf(code string) (string, bool) {
 	return "", false
 }
 
-// expiredValue / expiredAt for spec evaluation.
-func (sc *SpecCtx) expiredValue(err Val) Val {
-	e := sc.st.e
-	anyT := types.NewInterfaceType(nil, nil)
-	if err.C[0] == e.namedTag("errExpired") {
-		// errExpired{entry}: a one-leaf struct, so the interface payload is the entry pointer itself
-		ent := e.P.TPkg.Scope().Lookup("TraitEntry").Type()
-		return sc.load(&Ptr{Kind: PObj, Root: err.C[1], RootT: ent, Path: ".V", T: anyT})
+// asTarget is the value errors.As(err, &ErrWithExpiredItem[Of]) stores into its target on success: err itself when
+// err is one of the package's expiry errors, otherwise some error from err's unwrap chain (uninterpreted).
+func (st *State) asTarget(tag, val string) (string, string) {
+	e := st.e
+	isOurs := or(eq(tag, e.namedTag("errExpired")), eq(tag, e.expiredOfTag()))
+	if tag == e.namedTag("errExpired") || tag == e.expiredOfTag() {
+		return tag, val
 	}
-	return Val{T: anyT, C: []string{fmt.Sprintf("(expval_tag %s %s)", err.C[0], err.C[1]), fmt.Sprintf("(expval_val %s %s)", err.C[0], err.C[1])}}
+	if isConcreteNum(tag) {
+		return fmt.Sprintf("(asExp_tag %s %s)", tag, val), fmt.Sprintf("(asExp_val %s %s)", tag, val)
+	}
+	return ite(isOurs, tag, fmt.Sprintf("(asExp_tag %s %s)", tag, val)), ite(isOurs, val, fmt.Sprintf("(asExp_val %s %s)", tag, val))
+}
+
+// expAtOf: ts(x.ExpiredAt()) of an expiry-error value x = (tag, val). For the package's own errExpired with a
+// statically known dynamic type it is the entry's E field; for an error of unknown dynamic type (a backend behind
+// the ReadWriter interface) it is an uninterpreted, deterministic function of the error value.
+func (st *State) expAtOf(sn *Snapshot, tag, val string) string {
+	e := st.e
+	if tag == e.expiredOfTag() {
+		if t := e.typeByString("TraitEntryOf[V]"); t != nil {
+			return sel(st.arrIn(sn, heapName(e, t, ".E"), arrSort(SInt)), val)
+		}
+	}
+	if tag == e.namedTag("errExpired") {
+		ent := e.P.TPkg.Scope().Lookup("TraitEntry").Type()
+		return sel(st.arrIn(sn, heapName(e, ent, ".E"), arrSort(SInt)), val)
+	}
+	return fmt.Sprintf("(expat %s %s)", tag, val)
+}
+
+// expValOf: x.Value() of an expiry-error value (see expAtOf).
+func (st *State) expValOf(sn *Snapshot, tag, val string, generic bool) Val {
+	e := st.e
+	anyT := types.NewInterfaceType(nil, nil)
+	if generic {
+		if tag == e.expiredOfTag() {
+			if t := e.typeByString("TraitEntryOf[V]"); t != nil {
+				return Val{T: anyT, C: []string{sel(st.arrIn(sn, heapName(e, t, ".V"), arrSort(SInt)), val)}}
+			}
+		}
+		return Val{T: anyT, C: []string{fmt.Sprintf("(expval_val %s %s)", tag, val)}}
+	}
+	if tag == e.namedTag("errExpired") {
+		ent := e.P.TPkg.Scope().Lookup("TraitEntry").Type()
+		at := st.arrIn(sn, heapName(e, ent, ".V.tag"), arrSort(SInt))
+		av := st.arrIn(sn, heapName(e, ent, ".V.val"), arrSort(SInt))
+		e.refArr[heapName(e, ent, ".V.val")] = true
+		return Val{T: anyT, C: []string{sel(at, val), sel(av, val)}}
+	}
+	return Val{T: anyT, C: []string{fmt.Sprintf("(expval_tag %s %s)", tag, val), fmt.Sprintf("(expval_val %s %s)", tag, val)}}
+}
+
+// expiredValue / expiredAt for spec evaluation: Value() / ts(ExpiredAt()) of what errors.As extracts from err.
+func (sc *SpecCtx) expiredValue(err Val) Val {
+	tt, tv := sc.st.asTarget(err.C[0], err.C[1])
+	generic := sc.st.e.typeByString("TraitEntryOf[V]") != nil && strings.Contains(sc.st.e.curFn, "Of[V]")
+	v := sc.st.expValOf(sc.cur, tt, tv, generic)
+	if generic {
+		if t := sc.st.e.typeByString("V"); t != nil {
+			v.T = t
+		}
+	}
+	return v
 }
 
 func (sc *SpecCtx) expiredAt(err Val) Val {
-	e := sc.st.e
-	if err.C[0] == e.namedTag("errExpired") {
-		ent := e.P.TPkg.Scope().Lookup("TraitEntry").Type()
-		return sc.load(&Ptr{Kind: PObj, Root: err.C[1], RootT: ent, Path: ".E", T: tInt64})
-	}
-	return Val{T: tInt64, C: []string{fmt.Sprintf("(expat %s %s)", err.C[0], err.C[1])}}
+	tt, tv := sc.st.asTarget(err.C[0], err.C[1])
+	return Val{T: tInt64, C: []string{sc.st.expAtOf(sc.cur, tt, tv)}}
 }
 
 func modelSortSlice(st *State, fr *Frame, fn *ssa.Function, a []Val, pos token.Pos) (*Val, bool) {
